@@ -16,6 +16,9 @@ use std::collections::{HashMap, HashSet, VecDeque, BTreeSet};
 use std::io::Write;
 use std::panic::{catch_unwind, AssertUnwindSafe};
 
+// the Debug text of the largest state of the unchanged tree (three active mappings of the longest built-in) is below 1 500 characters
+const MAX_STATE_TEXT: usize = 5000;
+
 struct Job { id: String, layout: Option<Layout>, load_err: String, keys: Vec<KeyCode>, maxheld: usize }
 
 struct Tabled {
@@ -82,7 +85,8 @@ fn tabulate_one(job: &Job, maxstates: usize) -> Tabled {
                 let n = match ids.get(&key) {
                   Some(i) => *i as i64,
                   None => {
-                    if states.len() >= maxstates { truncated = true; -2 }
+                    // a state whose text is this long has unboundedly growing lists (a change that never releases / keeps re-adding keys): not explored further
+                    if states.len() >= maxstates || key.len() > MAX_STATE_TEXT { truncated = true; -2 }
                     else { let i = states.len(); ids.insert(key, i); states.push(ns); i as i64 }
                   }
                 };
@@ -111,7 +115,7 @@ fn tabulate_one(job: &Job, maxstates: usize) -> Tabled {
           let n = match ids.get(&key) {
             Some(i) => *i as i64,
             None => {
-              if states.len() >= maxstates { truncated = true; -2 }
+              if states.len() >= maxstates || key.len() > MAX_STATE_TEXT { truncated = true; -2 }
               else { let i = states.len(); ids.insert(key, i); states.push(ns); i as i64 }
             }
           };
@@ -205,7 +209,7 @@ pub fn cmd_tabulate(jobs_path: &str, outdir: &str, threads: usize) {
         for mut l in t.lines.drain(..) { rebase(&mut l, base); l["l"] = json!(hdrs.len() + 1); body.push(l.to_string()); }
         hdrs.push(t.hdr);
         nl += 1; st += t.states; tr += t.transitions; pn += t.panics; if t.truncated { tc += 1; }
-        if body.len() >= shard_states { flush(&mut hdrs, &mut body, &mut nfiles); }
+        if body.len() >= shard_states || body.iter().map(|l| l.len()).sum::<usize>() > 96_000_000 { flush(&mut hdrs, &mut body, &mut nfiles); }
       }
       flush(&mut hdrs, &mut body, &mut nfiles);
       (nl, st, tr, pn, tc, nfiles)
